@@ -798,6 +798,7 @@ inline std::vector<std::string> extended_names(std::vector<std::string> const &a
   }
   add("7");
   add("x");
+  add(""); // the empty string is an argument like any other (a word; never a flag, never convertible to a number)
   return out;
 }
 
